@@ -93,6 +93,8 @@ inductive Op where
   | gPersist
   | gReturn
   | gAbort
+  | dcJoin (d s : Nat)   -- a datacenter joins (its suffix fits the current width): its allocator leader on server s is
+                         -- synchronised to the largest local timestamp of the cluster before it serves
   deriving Repr, DecidableEq
 
 def accMax (loc : Nat → TS) (acc : Option TS) (d : Nat) : Option TS :=
@@ -103,6 +105,9 @@ def accMax (loc : Nat → TS) (acc : Option TS) (d : Nat) : Option TS :=
 /-- the largest local memory among the dcs led by server `s` (none if it leads nothing) -/
 def maxLocal (st : St) (s : Nat) : Option TS :=
   (st.dcs.filter (fun d => st.srvOf d = s)).foldl (accMax st.loc) none
+
+/-- the largest local memory of the cluster (`GetMaxLocalTSO`) -/
+def maxAll (st : St) : Option TS := st.dcs.foldl (accMax st.loc) none
 
 /-- "Re-add the count and check the overflow" -/
 def bump (maxLog bits : Nat) (m : TS) (c : Nat) : TS :=
@@ -184,6 +189,16 @@ def step (st0 : St) (op : Op) : St :=
       if r.phase ≠ .ret then st else
       { st with req := none, events := ⟨0, r.est, r.start, st.clock⟩ :: st.events }
   | .gAbort => { st with req := none }
+  | .dcJoin d s =>
+    -- not while a global request is in flight (its list of datacenters is fixed at its start; a join racing
+    -- with it is outside the model), not for a known dc, and there has to be somebody to synchronise with
+    match st.req, maxAll st with
+    | none, some m =>
+      if d = 0 ∨ d ∈ st.dcs ∨ s ∉ st.servers then st else
+      { st with dcs := d :: st.dcs,
+                srvOf := fun i => if i = d then s else st.srvOf i,
+                loc := fun i => if i = d then tsMax (st.loc d) m else st.loc i }
+    | _, _ => st
 
 def run (st : St) (ops : List Op) : St := ops.foldl step st
 
